@@ -984,7 +984,8 @@ impl<AB: AirBuilder> Air<AB> for PeriodicAir {
     }
 }
 
-/// Emits constraints in the order given by `order` ('b' base via `assert_zero`, 'e' extension via `assert_zero_ext`).
+/// Emits constraints in the order given by `order` ('b' base via `assert_zero`, 'e' extension via `assert_zero_ext`,
+/// 'l' a lifted base expression via `assert_zero_ext`).
 pub struct OrderAir(pub &'static str);
 impl<T> BaseAir<T> for OrderAir {
     fn width(&self) -> usize {
@@ -999,6 +1000,11 @@ impl<AB: PermutationAirBuilder> Air<AB> for OrderAir {
             let (x, y): (AB::Expr, AB::Expr) = (l[i % 4].into(), n[(i + 1) % 4].into());
             if c == 'b' {
                 b.assert_zero(x * y - l[(i + 2) % 4].into());
+            } else if c == 'l' {
+                // an extension constraint that is a LIFTED base expression (no extension-only leaf), a different one per position
+                let z: AB::Expr = l[(i + 2) % 4].into();
+                let w: AB::Expr = n[(i + 3) % 4].into();
+                b.assert_zero_ext(AB::ExprEF::from(x * y - z + w * AB::Expr::from(AB::F::from_u64(i as u64 + 1))));
             } else {
                 let e: AB::ExprEF = AB::ExprEF::from(x) * AB::ExprEF::from(<AB::EF as BasedVectorSpace<AB::F>>::from_basis_coefficients_fn(|j| AB::F::from_u64(j as u64 + 2)));
                 b.assert_zero_ext(e - AB::ExprEF::from(y));
@@ -1041,7 +1047,7 @@ impl<AB: AirBuilder + InteractionBuilder> Air<AB> for LookupAir {
 pub const AIR_NAMES: &[&str] = &[
     "fibonacci", "mul_deg2", "mul_deg3", "const_d1", "const_d4", "public_d1_l1", "public_d1_l4", "public_d4_l2", "alu_d1_l1", "alu_d1_l2_k3", "alu_d1_l4",
     "alu_d4_l1", "alu_d4_l2_k3", "recompose_d4", "recompose_d4_coeff_lookups", "circuit_tables_d1", "circuit_tables_d4", "poseidon2_bb_d4_w16", "poseidon2_bb_d1_w16",
-    "harness_periodic", "harness_lookups", "harness_order_bbee", "harness_order_ebeb", "harness_order_eb",
+    "harness_periodic", "harness_lookups", "harness_order_bbee", "harness_order_ebeb", "harness_order_eb", "harness_order_ll", "harness_order_lbl", "harness_order_lell",
 ];
 
 fn small_circuit_airs<const D: usize>(st: &mut Counts, mut f: impl FnMut(&str, &p3_circuit_prover::common::CircuitTableAir<SC, D>))
@@ -1169,6 +1175,9 @@ pub fn check_air(name: &str, rng: &mut StdRng, st: &mut Counts, out: &mut Vec<Fi
         "harness_order_bbee" => both!(OrderAir("bbee")),
         "harness_order_ebeb" => both!(OrderAir("ebeb")),
         "harness_order_eb" => both!(OrderAir("eb")),
+        "harness_order_ll" => both!(OrderAir("ll")),
+        "harness_order_lbl" => both!(OrderAir("lbl")),
+        "harness_order_lell" => both!(OrderAir("lell")),
         _ => {
             st.inc("air_cases_unknown");
             return false;
